@@ -119,8 +119,51 @@ def run(chk):
     if not obs: chk.faults.append('call-site scan produced zero obligations')
     for c in (K.parse_contract(), K.dict_to_stix2_contract(), K._fix_detect(K.detect_contract()), K.memory_add_contract(), K.check_object_from_file_contract()):
         chk.prove(c); chk.canary(c)
+    # frame: what a named version admits depends on the call's arguments only -- the validators and the dispatch read no module-level mutable state and are not memoised
+    from vf.callsites import purity_obligations
+    for ob in purity_obligations(SRC_ROOT, ['stix2/properties.py::_check_uuid', 'stix2/properties.py::_validate_id', 'stix2/properties.py::_validate_type', 'stix2/utils.py::detect_spec_version',
+                                            'stix2/parsing.py::parse', 'stix2/parsing.py::dict_to_stix2', 'stix2/parsing.py::parse_observable']):
+        chk.lemmas.append(ob)
+        if ob.result != 'discharged': chk.violation('frame#' + ob.clause.split(':')[0] + '::' + ob.clause.split('::')[1].split(':')[0], 'frame obligation fails: ' + ob.clause, {'obligation': ob.clause}, no_input=True)
     tmp = tempfile.mkdtemp(prefix='vf-c14-')
     try:
+        # ---- history: a version named in one call has no effect on another call (identifier rules are version-specific: UUIDv1 is a 2.1 identifier only)
+        U1 = '6ba7b810-9dad-11d1-80b4-00c04fd430c8'
+        def id_hist(first, second):
+            outs = []
+            for v in (first, second):
+                d = {'type': 'identity', 'id': 'identity--' + U1, 'created': '2020-01-01T00:00:00.000Z', 'modified': '2020-01-01T00:00:00.000Z', 'name': 'n', 'identity_class': 'individual',
+                     'created_by_ref': 'identity--' + U1[:-1] + '9'}
+                if v == '2.1': d['spec_version'] = '2.1'
+                for rn, fn in (('parse', lambda: stix2.parse(dict(d), version=v)), ('MemoryStore.add', lambda: stix2.MemoryStore().add(dict(d), version=v)),
+                               ('FileSystemSink.add', lambda: stix2.FileSystemSink(tempfile.mkdtemp(dir=tmp)).add(dict(d), version=v))):
+                    try: fn(); outs.append((v, rn, 'accepted'))
+                    except (stix2.exceptions.STIXError, ValueError) as ex: outs.append((v, rn, 'refused'))
+            return outs
+        n_h = 0
+        for first, second in (('2.0', '2.1'), ('2.1', '2.0'), ('2.1', '2.0')):
+            n_h += 1
+            for v, rn, out in id_hist(first, second):
+                want = 'accepted' if v == '2.1' else 'refused'
+                if out != want:
+                    chk.violation(f'history#identifier rules of the named version:{rn}', f'a UUIDv1 identifier under version={v} through {rn} is {out} (expected {want}) in a process that handled the same identifier under version {first if v == second else second} before', {'route': rn, 'version': v})
+        chk.bounded_runs.append({'name': 'history: version-specific identifier rules across calls', 'bound': '3 orders x 2 versions x parse / MemoryStore.add / FileSystemSink.add', 'evaluations': n_h * 6, 'distinct_classes': None, 'witnesses': 0, 'wall_s': 0, 'samples': []})
+        # ---- a bundle that names no version: each member is read as the version it declares itself, through every way a bundle reaches a memory store
+        m20 = {'type': 'indicator', 'id': 'indicator--' + G.UUID, 'created': '2020-01-01T00:00:00.000Z', 'modified': '2020-01-01T00:00:00.000Z', 'labels': ['malicious-activity'], 'pattern': "[file:name = 'a']", 'valid_from': '2020-01-01T00:00:00Z'}
+        m21 = {'type': 'identity', 'spec_version': '2.1', 'id': 'identity--' + G.UUID2, 'created': '2020-01-01T00:00:00.000Z', 'modified': '2020-01-01T00:00:00.000Z', 'name': 'n'}
+        for order in ((m20, m21), (m21, m20)):
+            b = {'type': 'bundle', 'id': 'bundle--' + G.UUID, 'objects': [dict(x) for x in order]}
+            bpath = os.path.join(tmp, 'mixed.json'); open(bpath, 'w').write(json.dumps(b))
+            for rn, mk in (('MemoryStore(bundle)', lambda: stix2.MemoryStore(json.loads(json.dumps(b)))), ('MemorySource(bundle)', lambda: stix2.MemorySource(json.loads(json.dumps(b)))),
+                           ('MemoryStore().add(bundle)', lambda: (lambda ms: (ms.add(json.loads(json.dumps(b))), ms)[1])(stix2.MemoryStore())),
+                           ('MemoryStore().load_from_file', lambda: (lambda ms: (ms.load_from_file(bpath), ms)[1])(stix2.MemoryStore()))):
+                try: st = mk()
+                except Exception as ex:
+                    chk.violation(f'mixed bundle#{rn}', f'{rn}: a bundle holding a 2.0 and a 2.1 object (no version named) is refused: {type(ex).__name__}: {str(ex)[:120]}', {'route': rn}); continue
+                for d, w in ((m20, '2.0'), (m21, '2.1')):
+                    r = st.get(d['id'])
+                    if r is None or isinstance(r, dict) or pkg_of(r) != w:
+                        chk.violation(f'mixed bundle#{rn}', f'{rn}: the {w} member of a bundle naming no version comes back as {None if r is None else type(r).__module__ + "." + type(r).__name__}', {'route': rn}); break
         eps = entry_points(tmp); dicts = sample_dicts()
 
         def cases():
